@@ -377,8 +377,10 @@ selectmechanism:
 		}
 	}
 
-	success := false
-	for more {
+	// With a single step mechanism the element decoded above was the receiver's
+	// <success/> (anything else was returned as an error).
+	success := !more
+	for more || !success {
 		select {
 		case <-ctx.Done():
 			return mask, nil, ctx.Err()
@@ -396,6 +398,15 @@ selectmechanism:
 			}
 		} else {
 			return mask, nil, errUnexpectedPayload
+		}
+		if !more {
+			// The mechanism already completed (its last message arrived in a
+			// <challenge/>): only the receiver's verdict is still missing, and
+			// nothing but <success/> can follow.
+			if !success {
+				return mask, nil, errUnexpectedPayload
+			}
+			break
 		}
 		if more, resp, err = client.Step(challenge); err != nil {
 			return mask, nil, err
